@@ -192,6 +192,14 @@ fn exec_du(out: &mut CaseOut) {
         exec_val_v(Value::Dict(d), out);
         exec_val_v(Value::List(vec![n]), out);
     }
+    // dicts that LOOK like Hayson objects (a `_kind` tag naming a kind): a dict all the same
+    for kind in ["number", "marker", "str", "ref", "grid", "list", "dict", "dateTime", "Number", "nope"] {
+        let mut d = Dict::new();
+        d.insert("_kind".into(), Value::make_str(kind));
+        d.insert("val".into(), Value::make_number(1.0));
+        exec_val_v(Value::Dict(d.clone()), out);
+        exec_val_v(Value::List(vec![Value::Dict(d)]), out);
+    }
     // the model is not asked: the exchange format names units by symbol
     out.reqs.clear();
 }
@@ -436,6 +444,41 @@ fn exec_kinds(out: &mut CaseOut) {
 // grid
 // ---------------------------------------------------------------------------------------------
 
+/// Records carrying several hundred thousand DISTINCT tag names between them (words of a point-naming scheme with
+/// running numbers): one column per name - whatever a constructor remembers names by (a hash, a prefix, a length) has
+/// met more names than it can keep apart if it is not the name itself
+fn exec_manynames(out: &mut CaseOut) {
+    out.nontrivial = true;
+    out.stat("grid:manynames");
+    let words = ["gasTempFb", "coilSpeedLim", "mixedModeCmd", "vavPowerLim", "returnHumidityLim", "chillerEnableFb", "dischargeAirTemp", "zoneCo2Sp", "t", "x_"];
+    let mut rows: Vec<Dict> = Vec::new();
+    let mut names: std::collections::BTreeSet<String> = std::collections::BTreeSet::new();
+    let mut i = 0u32;
+    for r in 0..300 {
+        let mut d = Dict::new();
+        for _ in 0..1000 {
+            let n = format!("{}{}", words[(i as usize) % words.len()], i / words.len() as u32);
+            i += 1;
+            d.insert(n.clone(), Value::Marker);
+            names.insert(n);
+        }
+        if r % 50 == 0 {
+            d.insert("id".into(), Value::make_ref("r"));
+        }
+        rows.push(d);
+    }
+    names.insert("id".into());
+    let grid = Grid::make_from_dicts(rows);
+    let cols: Vec<&String> = grid.columns.iter().map(|c| &c.name).collect();
+    if cols.len() != names.len() {
+        let have: std::collections::BTreeSet<&String> = cols.iter().copied().collect();
+        let missing: Vec<&String> = names.iter().filter(|n| !have.contains(n)).take(4).collect();
+        out.fail("grid_cols_union", format!("{} records with {} distinct tag names give a grid of {} columns; without a column: {missing:?}", grid.rows.len(), names.len(), cols.len()));
+    } else if !cols.iter().copied().eq(names.iter()) {
+        out.fail("grid_cols_sorted", "the columns of the many-names grid are not the sorted distinct tag names".into());
+    }
+}
+
 fn exec_grid(input: &str, out: &mut CaseOut) {
     let mut rd = Rd::new(input);
     let meta = match rd.odict() {
@@ -502,6 +545,7 @@ pub fn exec(label: &str, input: &str, out: &mut CaseOut) {
     match label.split(':').next().unwrap_or(label) {
         "val" => exec_val(input, out),
         "du" => exec_du(out),
+        "manynames" => exec_manynames(out),
         "get" => exec_get(input, out),
         "code" => exec_code(input, out),
         "name" => exec_name(input, out),
@@ -581,6 +625,7 @@ pub fn generate(ctx: &mut Ctx) {
     // exhaustive parts, on every run
     ctx.case("kinds", "-");
     ctx.case("du", "-");
+    ctx.case("manynames", "-");
     for n in 0..256u32 {
         ctx.case("code", &n.to_string());
     }
